@@ -199,7 +199,9 @@ EnsureSize(n)  == Ok("EnsureSize", n, 0, 0, 0, <<>>, s, <<>>)          \* "the n
 \* "adding or removing [default] items to (from) the tail of the Queue until the Queue is the specified size"
 EnsureSizeSet(n) == Ok("EnsureSizeSet", n, 0, 0, 0, <<>>,
                        IF n >= Len(s) THEN s \o (IF Wrong = "stale" THEN [i \in 1..(n - Len(s)) |-> 1] ELSE Defaults(n - Len(s))) ELSE Take(s, n), <<>>)
-EnsureSizeX(n, extra, shrink) == Ok("EnsureSizeX", n, extra, shrink, 0, <<>>, s, <<>>)     \* EnsureSize(n, false, extraReallocItems, allowShrink)
+SetSize(n) == IF n >= Len(s) THEN s \o Defaults(n - Len(s)) ELSE Take(s, n)
+EnsureSizeX(n, extra, shrink) == Ok("EnsureSizeX", n, extra, shrink, 0, <<>>, s, <<>>)     \* EnsureSize(n, false, extraReallocItems, allowShrink): only the allocation changes, whatever n is
+EnsureSizeSetX(n, extra, shrink) == Ok("EnsureSizeSetX", n, extra, shrink, 0, <<>>, SetSize(n), <<>>)   \* EnsureSize(n, true, extraReallocItems, allowShrink): "[extra] is ignored if (setNumItems) is true"
 EnsureCanAdd(n) == Ok("EnsureCanAdd", n, 0, 0, 0, <<>>, s, <<>>)
 ShrinkToFit(n)  == Ok("ShrinkToFit", n, 0, 0, 0, <<>>, s, <<>>)
 Normalize       == Void("Normalize", 0, 0, 0, 0, <<>>, s, <<>>)
@@ -261,12 +263,10 @@ GenAdd == Ready /\
     \/ \E v \in Vals : (Fits(1) \/ v \in ItemsOf(s)) /\ (AddTailIfAbsent(v) \/ AddHeadIfAbsent(v))
     \/ \E src \in Srcs, c \in Cuts : Fits(SliceLen(src, c[1], c[2])) /\ (AddTailMulti(src, c[1], c[2]) \/ AddHeadMulti(src, c[1], c[2]))
     \/ \E src \in Srcs : Fits(Len(src)) /\ (AddTailMultiArr(src) \/ AddHeadMultiArr(src))
-    \/ \E c \in Cuts : Fits(SliceLen(s, c[1], c[2])) /\ AddTailMultiSelf(c[1], c[2])
-    \* prepending two or more of the Queue's own items is kept out of generation: see the known finding about AddHeadMulti(*this)
-    \/ \E c \in Cuts : Fits(SliceLen(s, c[1], c[2])) /\ SliceLen(s, c[1], c[2]) <= 1 /\ AddHeadMultiSelf(c[1], c[2])
+    \/ \E c \in Cuts : Fits(SliceLen(s, c[1], c[2])) /\ (AddTailMultiSelf(c[1], c[2]) \/ AddHeadMultiSelf(c[1], c[2]))
     \/ \E i \in Idx, src \in Srcs, c \in Cuts2 : Fits(SliceLen(src, c[1], c[2])) /\ InsertItemsAt(i, src, c[1], c[2])
     \/ \E i \in Idx, src \in Srcs : Fits(Len(src)) /\ InsertItemsAtArr(i, src)
-    \/ \E i \in Idx, c \in Cuts2 : Fits(SliceLen(s, c[1], c[2])) /\ (i = 0 => SliceLen(s, c[1], c[2]) <= 1) /\ InsertItemsAtSelf(i, c[1], c[2])    \* at index 0 this is AddHeadMulti(*this)
+    \/ \E i \in Idx, c \in Cuts2 : Fits(SliceLen(s, c[1], c[2])) /\ InsertItemsAtSelf(i, c[1], c[2])
 GenRemove == Ready /\
     \/ RemoveHead \/ RemoveHeadRet \/ RemoveHeadDef \/ RemoveTail \/ RemoveTailRet \/ RemoveTailDef
     \/ \E n \in {0, 1, 2, 9} : RemoveHeadMulti(n) \/ RemoveTailMulti(n)
@@ -284,8 +284,8 @@ GenIndex == Ready /\
 GenSize == Ready /\
     \/ \E n \in {0, 2, 4, 5, 8} : EnsureSize(n)
     \/ \E n \in 0..MaxLen : EnsureSizeSet(n)
-    \* allowShrink with fewer slots than items is kept out of generation: see the known finding about it
-    \/ \E x \in {<<0, 0, 1>>, <<2, 0, 1>>, <<4, 0, 1>>, <<4, 2, 0>>, <<3, 2, 1>>, <<6, 0, 0>>} : (x[3] = 1 => x[1] + x[2] >= Len(s)) /\ EnsureSizeX(x[1], x[2], x[3])
+    \/ \E x \in {<<0, 0, 1>>, <<2, 0, 1>>, <<4, 0, 1>>, <<4, 2, 0>>, <<3, 2, 1>>, <<6, 0, 0>>} : EnsureSizeX(x[1], x[2], x[3])
+    \/ \E x \in {<<0, 0, 1>>, <<1, 0, 1>>, <<2, 2, 1>>, <<3, 0, 0>>, <<4, 0, 1>>} : x[1] <= MaxLen /\ EnsureSizeSetX(x[1], x[2], x[3])
     \/ \E n \in {1, 3, 6} : EnsureCanAdd(n)
     \/ \E n \in {0, 1, 4} : ShrinkToFit(n)
     \/ Normalize
@@ -366,7 +366,7 @@ LenLaw == Stepped =>
     /\ (L.op \in IndexedOps \cup EndOps \cup FindOps /\ L.st = "ok" /\ L.op \notin {"GetItemAt", "ReplaceItemAt", "ReplaceItemAtDefault"} => Len(L.q) = Len(L.pre) - 1)
     /\ (L.op \in {"RemoveHeadMulti", "RemoveTailMulti"} => L.lo = Min(L.a, Len(L.pre)) /\ Len(L.q) = Len(L.pre) - L.lo)
     /\ (L.op \in {"Clear", "FastClear", "Release", "MoveAway"} => L.q = <<>>)
-    /\ (L.op = "EnsureSizeSet" => Len(L.q) = L.a)
+    /\ (L.op \in {"EnsureSizeSet", "EnsureSizeSetX"} => Len(L.q) = L.a)
 
 \* the items a step does not touch keep their places relative to each other
 OrderLaw == Stepped =>
@@ -398,7 +398,7 @@ ReverseLaw == Stepped /\ L.op = "Reverse" =>
     /\ \A i \in 1..Len(L.q) : L.q[i] = IF i > L.a /\ i <= hi THEN L.pre[L.a + 1 + hi - i] ELSE L.pre[i]
 \* what EnsureSize(n, true) and the default-item calls add is the default item; what they keep is a prefix
 DefaultLaw == Stepped =>
-    /\ (L.op = "EnsureSizeSet" => \A i \in 1..Len(L.q) : L.q[i] = IF i <= Len(L.pre) THEN L.pre[i] ELSE Default)
+    /\ (L.op \in {"EnsureSizeSet", "EnsureSizeSetX"} => \A i \in 1..Len(L.q) : L.q[i] = IF i <= Len(L.pre) THEN L.pre[i] ELSE Default)
     /\ (L.op \in DefAdds \cup {"ReplaceItemAtDefault"} => L.v = Default)
     /\ (L.op \in {"GetWithDefault", "RemoveItemAtDef"} /\ L.a >= Len(L.pre) => L.lo = Default)
 SearchLaw == Stepped =>
